@@ -150,6 +150,24 @@ theorem C10_request_keeps_step (s s' : St) (n : Nat) (w : WEff)
     | contradiction
     | (dsimp only at hs; repeat' split at hs) <;> first | contradiction | (simp only [Option.some.injEq] at hs; subst hs; rfl)
 
+/-- the run of a hardware-style source that ends BY ITSELF (no data for the reader's time-out, nobody called Stop):
+the pending acquisition step closes `nextBlock` once and releases the devices, the loop leaves through its
+deferred clean-up, and the source is Inactive with nothing left — from where `C10_restart` applies -/
+example : ∃ s, run (init true) [.callStart, .startOk, .sampled, .chans, .prepared 0, .activate, .runStarted, .loopStart,
+    .tick, .send, .gotBlock, .processed, .selfClose, .gotClosed, .loopDeactivate] = some s ∧
+    (decide (s.st = .inactive ∧ s.res = false ∧ s.asm = 0 ∧ s.lp = .off ∧ s.wg = 0 ∧ s.crashed = false ∧ s.runOver = true)) = true :=
+  exists_of_run _ _ (by decide)
+
+theorem C10_self_close_once (o : Bool) (s s' : St) (h : Reach o s) (hs : step s .selfClose = some s') :
+    s.nbClosed = false ∧ s'.crashed = false ∧ s'.nbClosed = true ∧ s'.res = false ∧ s'.asm = 0 := by
+  have hg := lc_inv o s h
+  obtain ⟨st, sEnter, sp, kEnter, kDecided, kWait, kReady, kClean, lp, pp, abortClosed, nbClosed, wg, writing, res, opens, crashed,
+    fuel, flag, rEnter, rSend, rWait, runOver, stopsDone, asm⟩ := s
+  have h7 := hg.prod_alive
+  have h16 := hg.asm_le
+  dsimp only at h7 h16
+  lc_open hs <;> simp_all [PPc.alive] <;> omega
+
 /-! ### Atomicity of Stop's decision -/
 
 /-- **C10_stop_decision_atomic**: in every reachable state (any interleaving), while a Stop caller is between its
